@@ -117,6 +117,7 @@ def _lookup_model(it):
     'C08': '[primitive] the clock growth that triggers re-examination of pending removes is this function (ABSORB, DEF-REEXAM)',
     'C12': '[primitive] List::apply absorbs the op dot through it (ABSORB list instances)',
     'C02': '[primitive] VClock::merge applies every dot of other through it (VC-MERGE)',
+    'C20': '[primitive] the replica clock and every witness clock grow through it: equal knowledge must give equal clocks',
 }, floor=1)
 def vc_apply(ctx):
     """VClock::apply stores dot.counter for dot.actor: must under get(actor) < counter, never under get(actor) > counter
